@@ -25,6 +25,7 @@ THEOREMS = [
     "RefineParse.parse_refines", "RefineParse.loop_valid", "RefineParse.loop_invalid", "RefineParse.columns",
     "C02.generated_parse_eq_spec", "C02.generated_read_ok_iff", "C02.generated_columns", "C02.generated_never_partial",
     "C02.generated_decode_fails_loudly", "C02.generated_warning_iff", "C02.generated_exit_propagates",
+    "C02.line_agrees", "C02.generated_ok_iff_model", "C02.generated_error_iff_model",
 ]
 TRUSTED = ["hand-written recogniser of the SWC line language (Model/SwcText.lean), tested equal to CPython's `re` on generated lines, pinned to the regex strings extracted from io.py (Gen/Consts.lean)"]
 ASSUMPTIONS = ["CPython re / int() / float() / str methods / text decoding / universal newlines", "pandas DataFrame construction from the collected columns"]
